@@ -33,6 +33,11 @@ def gen_banks(rng):
              "size": size_units if has_size else None, "outp": outp if has_outp else None,
              "fill": rng.random() < 0.35, "labelalign": rng.choice([None, None, None, unit, 2 * unit, 16, 32]),
              "show_bits": rng.random() < 0.3}
+        if has_size and rng.random() < 0.3:
+            # the extent written as an end address
+            b["size_as_end"] = True
+            if rng.random() < 0.08:
+                b["size"] = -rng.choice([1, 2, 0x20])          # ends before it starts: the program must be rejected
         if has_outp:
             cursor = max(cursor, outp + (size_units * unit if has_size else 64))
         banks.append(b)
